@@ -151,7 +151,9 @@ func TestDuration(t *testing.T) {
 
 func TestHostPortPrefix(t *testing.T) {
 	r := mon.Start("C14", "hostport_prefix")
-	hosts := []string{"", "example.com", "EXAMPLE.com", "1.2.3.4", "::1", "fe80::1%eth0", "a b", "a:b", "a\x00b", "é", "%", "%25", ":", "::", "h.", "-", "xn--e1afmkfd", "a%b:c", " ", "\t", "a/b", "a@b", "\xff", "2001:db8::1", "::ffff:1.2.3.4", "1:2:3:4:5:6:7:8"}
+	hosts := []string{"", "example.com", "EXAMPLE.com", "1.2.3.4", "::1", "fe80::1%eth0", "a b", "a:b", "a\x00b", "é", "%", "%25", ":", "::", "h.", "-", "xn--e1afmkfd", "a%b:c", " ", "\t", "a/b", "a@b", "\xff", "2001:db8::1", "::ffff:1.2.3.4", "1:2:3:4:5:6:7:8",
+		// IP literals in non-canonical spellings must come back byte for byte
+		"2001:DB8::1", "0:0:0:0:0:0:0:1", "::FFFF:1.2.3.4", "::ffff:102:304", "fe80::1%ETH0", "2001:0db8:0000::0001", "1:0:0:2::", "001.2.3.4", "0x7f.1", "1.2.3.4."}
 	for _, s := range gen.NameLabels() {
 		if !strings.ContainsAny(s, "[]") {
 			hosts = append(hosts, s, s+".example")
